@@ -275,7 +275,10 @@ func lemmaClass(c *Ctx, r *Report, s tableSite, ls lemmaSet) string {
 			if call, ok := ex.Tuple.(*ssa.Call); ok {
 				if callee := call.Common().StaticCallee(); callee != nil && callee.String() == "strconv.ParseInt" {
 					if b, ok := call.Common().Args[1].(*ssa.Const); ok && b.Value != nil {
-						if k, _ := constant.Int64Val(b.Value); k == 16 && r.ruleClean("R08.5") {
+						if k, _ := constant.Int64Val(b.Value); k == 16 {
+							if !r.ruleClean("R08.5") {
+								return "BLOCKED:R08.5"
+							}
 							return "PROVEN-UNDER(R08.5 data lemma: every two-digit code of the packed tables is below the length of the name table)"
 						}
 					}
@@ -290,7 +293,10 @@ func lemmaClass(c *Ctx, r *Report, s tableSite, ls lemmaSet) string {
 					lo := e.obsAt(s.fn, s.ins, s.lo)
 					if k, ok := add.Y.(*ssa.Const); ok && k.Value != nil && !lo.bot {
 						kk, _ := constant.Int64Val(k.Value)
-						if lo.lo() >= kk && r.ruleClean("R08.5") {
+						if lo.lo() >= kk {
+							if !r.ruleClean("R08.5") {
+								return "BLOCKED:R08.5"
+							}
 							return "PROVEN-UNDER(R08.5 data lemma: the key was found (index >= 0 on this path) and every record is longer than its key)"
 						}
 					}
